@@ -209,10 +209,18 @@ class Ctx:
 
 
 def load_known():
-    p = os.path.join(VERIF, "known_findings.json")
-    if not os.path.exists(p):
-        return {"findings": [], "fixed": []}
-    return json.load(open(p))
+    """known_findings.json, plus fragments known_findings.d/*.json while checks are being built."""
+    out = {"findings": [], "fixed": []}
+    paths = [os.path.join(VERIF, "known_findings.json")]
+    d = os.path.join(VERIF, "known_findings.d")
+    if os.path.isdir(d):
+        paths += sorted(os.path.join(d, f) for f in os.listdir(d) if f.endswith(".json"))
+    for p in paths:
+        if os.path.exists(p):
+            j = json.load(open(p))
+            out["findings"] += j.get("findings", [])
+            out["fixed"] += j.get("fixed", [])
+    return out
 
 
 def classify(ctx, signature_text):
